@@ -85,7 +85,7 @@ def run_sem(pid, fmt):
 
     # ---------------- R: recorded executions on random cases, judged by TLC
     n_schemas = 250 if t == "quick" else 6000
-    cases = semcheck.gen_pairs(rnd, fmt, n_schemas)
+    cases = semcheck.gen_pairs(rnd, fmt, n_schemas) + semcheck.gen_pairs(rnd, fmt, n_schemas // 2, profile="shared")
     ops, results = semcheck.run_cases(cases)
     events = []
     evmeta = []
